@@ -254,7 +254,9 @@ def run_one(scratch, h, extra=(), timeout=None):
         res["failed_checks"] = fc
         locs = re.findall(r'Failed Checks: .*\n\s*File: "([^"]+)", line (\d+), in (\S+)', out)
         res["failed_locs"] = ["%s:%s in %s" % (os.path.basename(a), b, c) for a, b, c in locs]
-        real = [c for c in fc if "unwinding assertion" not in c and "not supported" not in c.lower() and "unsupported" not in c.lower()]
+        # Kani reports constructs it cannot model as failed checks with these phrases (never a property violation)
+        tool = ("unwinding assertion", "is not currently supported by kani", "kani does not support", "unsupported construct", "not yet supported")
+        real = [c for c in fc if not any(t in c.lower() for t in tool)]
         if "CBMC failed" in out or "out of memory" in out.lower() or "std::bad_alloc" in out:
             res["detail"] = "CBMC resource failure"
         elif not fc:
